@@ -274,7 +274,8 @@ func (e *c19Env) post() map[string]interface{} {
 	return map[string]interface{}{"txkeys": tk, "prim": tp, "blkprim": bp, "blkkeys": bk}
 }
 
-const c19SettleLong = 4 * time.Second
+// generous (starved machines); after two blocks that were never indexed the wait is cut short
+const c19SettleLong = 15 * time.Second
 
 var c19Unsettled = 0
 
